@@ -7,6 +7,8 @@ Part A: all patterns up to K body tokens (+ optional tail ~ / ..., optional (?i)
         ordering reverse_regexp recognises exactly the negated rows.
 Part R: patterns whose first word is, begins with or contains a vendor's negation word (no / notify / no-a / NO / xno ...)
         for all five negation words: reverse template and reverse of the negated rule against the reference.
+Part S: rule lines as written in files - pattern, spaces and/or tabs, %params - through _parse_raw_rule and the three
+        text compilers: the row is the pattern and the params take effect; every raw shipped line likewise.
 Part B: every rule line of every shipped .rul/.order/.deploy (rendered for a set of hardware views):
         a row synthesised from the line matches with the expected key; near-miss mutations do not.
 """
@@ -111,8 +113,74 @@ def run_r(block, ctx):
     ctx.sample({"part": "R", "patterns": pats[:6]})
 
 
+SEPARATORS = [" ", "  ", "\t", " \t", "\t\t", "\t "]
+
+
+def run_s(block, ctx):
+    """rule lines as written in rulebook files: pattern, blanks (spaces and/or tabs), %params.  The row the real
+    parsers extract must be the pattern, and the params must take effect - through _parse_raw_rule and through the
+    three text compilers; plus every raw line of the shipped texts against an independent split."""
+    from annet.annlib.rbparser import syntax
+    from annet.annlib.rbparser.ordering import compile_ordering_text
+    from annet.annlib.rbparser.acl import compile_acl_text
+    from annet.rulebook.patching import compile_patching_text
+    pats = [p for p in patterns(2) if "(?i)" not in p][block["i"]::4]
+    for p in pats:
+        want = syntax.compile_row_regexp(p).pattern
+        for sep in SEPARATORS:
+            ctx.evals += 4
+            ctx.states += 1
+            case = {"part": "S", "pattern": p, "sep": sep}
+            row, _ = syntax._parse_raw_rule(p + sep + "%global", {})
+            if row != p:
+                ctx.violation({"kind": "params-not-split", "via": "_parse_raw_rule", "sep": repr(sep)}, case, "row=%r" % row)
+            o = compile_ordering_text(p + sep + "%order_reverse\n", "huawei")
+            ok = len(o) == 1 and all(r["attrs"]["order_reverse"] and r["attrs"]["direct_regexp"].pattern == want for r in o.values())
+            if not ok:
+                ctx.violation({"kind": "params-not-split", "via": "compile_ordering_text", "sep": repr(sep)}, case,
+                              repr([(k, r["attrs"]["order_reverse"], r["attrs"]["direct_regexp"].pattern) for k, r in o.items()]))
+            a = compile_acl_text(p + sep + "%cant_delete=1\n", "huawei")
+            rules = list(a["local"].values()) + list(a["global"].values())
+            if not (len(rules) == 1 and rules[0]["attrs"]["cant_delete"] == [True] and rules[0]["attrs"]["direct_regexp"].pattern == want):
+                ctx.violation({"kind": "params-not-split", "via": "compile_acl_text", "sep": repr(sep)}, case,
+                              repr([(r["attrs"]["cant_delete"], r["attrs"]["direct_regexp"].pattern) for r in rules]))
+            if not p.endswith("..."):
+                pt = compile_patching_text(p + sep + "%logic=common.undo_redo\n", "huawei")
+                rules = list(pt["local"].values()) + list(pt["global"].values())
+                if not (len(rules) == 1 and rules[0]["attrs"]["logic"].__name__ == "undo_redo" and rules[0]["attrs"]["regexp"].pattern == want):
+                    ctx.violation({"kind": "params-not-split", "via": "compile_patching_text", "sep": repr(sep)}, case,
+                                  repr([(r["attrs"]["logic"].__name__, r["attrs"]["regexp"].pattern) for r in rules]))
+            ctx.outcomes["S:split-ok"] += 1
+        ctx.nontrivial += 1
+    # raw shipped lines (original blanks kept)
+    import os
+    from mc import shipped as _sh
+    d = _sh.texts_dir()
+    for fname in sorted(os.listdir(d))[block["i"]::4]:
+        if not fname.endswith((".rul", ".order", ".deploy")):
+            continue
+        for raw in open(os.path.join(d, fname), encoding="utf-8").read().split("\n"):
+            st = raw.strip()
+            if not st or st.startswith(("#", "%")) or "%" not in st:
+                continue
+            m = re.search(r"\s%[a-zA-Z_]", st)
+            if not m:
+                continue
+            exp = re.sub(r"\s+", " ", st[:m.start()].strip())
+            ctx.evals += 1
+            ctx.states += 1
+            row, _ = syntax._parse_raw_rule(st, {})
+            if row != exp:
+                ctx.violation({"kind": "params-not-split", "via": "_parse_raw_rule", "file": fname,
+                               "sep": repr(st[m.start():m.start() + 1])},
+                              {"part": "S", "file": fname, "line": st}, "row=%r expected=%r" % (row, exp))
+            ctx.outcomes["S:shipped-line-split-ok"] += 1
+    ctx.sample({"part": "S", "patterns": pats[:4], "separators": [repr(x) for x in SEPARATORS]})
+
+
 def blocks(tier, seed):
     bl = [{"part": "A", "i": i} for i in range(NB)]
+    bl += [{"part": "S", "i": i} for i in range(4)]
     bl += [{"part": "R", "i": i} for i in range(4)]
     bl += [{"part": "B", "i": i} for i in range(16)]
     return bl
@@ -187,6 +255,8 @@ def run_block(block, ctx):
         run_a(block, ctx)
     elif block["part"] == "R":
         run_r(block, ctx)
+    elif block["part"] == "S":
+        run_s(block, ctx)
     else:
         run_b(block, ctx)
 
@@ -289,6 +359,12 @@ def replay(case):
 
     def v(sig, c, detail=""):
         out.append((sig, detail))
+    if case.get("part") == "S":
+        row, _ = syntax._parse_raw_rule(case.get("line") or (case["pattern"] + case["sep"] + "%global"), {})
+        exp = case["pattern"] if "pattern" in case else re.sub(r"\s+", " ", case["line"][:re.search(r"\s%[a-zA-Z_]", case["line"]).start()].strip())
+        if row != exp:
+            v({"kind": "params-not-split", "via": "_parse_raw_rule"}, case, "row=%r expected=%r" % (row, exp))
+        return out
     if case.get("part") == "A":
         p = case["pattern"]
         if "row" in case and "prefix" not in case:
